@@ -263,6 +263,18 @@ CHECKS = {
          "offline history checker over events recorded at the simulated "
          "terminal / shared log; deterministic fault point injection for "
          "the creation window", "4 C15"),
+ "C25": ("exploration",
+         "Simulated rings of 2-40 terminals with pre-assigned and missing "
+         "station addresses and a narrowed address range run concurrent "
+         "Terminal.initialize(relative=-i), scan_serial_numbers() and both, "
+         "with seeded frame delays; every write to the station-address "
+         "register observed at the terminal models is checked against the "
+         "range, against addresses already answering on the ring at that "
+         "moment, and for pairwise distinctness.",
+         "range exhaustion is excluded (the statement does not cover it; "
+         "find_free_address then spins without yielding, noted in DESIGN)",
+         "invariant assertion at a hook on the simulated hardware "
+         "(register 0x10 writes) under seeded schedules", "4 C25"),
 }
 
 NOT_YET = "check not built yet in this round (design in DESIGN.md section 4)"
